@@ -6,11 +6,11 @@ pub struct Inv { pub wire: Vec<(String, [u8; 6], u8)>, /// [col][row] -> (board 
 pub fn inverse(run: u32) -> Inv {
     let mut wire = vec![(String::new(), [0u8; 6], 0u8); 256];
     for (name, mac) in crate::enc::A16_MACS { let b = alpha16::BoardId::try_from(name).unwrap(); assert_eq!(b.mac_address(), mac);
-        for ch in 0..32u8 { let w = TpcWirePosition::try_new(run, b, Adc32ChannelId::try_from(ch).unwrap()).unwrap(); wire[usize::from(w)] = (name.to_string(), mac, ch); } }
+        for ch in 0..32u8 { let cid = Adc32ChannelId::try_from(ch).unwrap(); let w = TpcWirePosition::try_new(run, b, cid).or_else(|_| TpcWirePosition::try_new(5000, b, cid)).unwrap(); /* runs without a map: names of run 5000, only used to build (failing) events */ wire[usize::from(w)] = (name.to_string(), mac, ch); } }
     let mut pad = vec![vec![(String::new(), [0u8; 6], 0u32, 0u8, 0u16); 576]; 32];
     for n in 0..100 { let name = format!("{:02}", n); let Ok(b) = padwing::BoardId::try_from(&name[..]) else { continue };
         for (ci, chip) in ['A', 'B', 'C', 'D'].iter().enumerate() { let a = AfterId::try_from(*chip).unwrap();
             for ro in 1..=79u16 { if let padwing::ChannelId::Pad(pc) = padwing::ChannelId::try_from(ro).unwrap() { let _: PadChannelId = pc;
-                if let Ok(p) = TpcPadPosition::try_new(run, b, a, pc) { pad[usize::from(p.column)][usize::from(p.row)] = (name.clone(), b.mac_address(), b.device_id(), ci as u8, ro); } } } } }
+                let run_p = if run >= 4418 { run } else { 5000 }; if let Ok(p) = TpcPadPosition::try_new(run_p, b, a, pc) { pad[usize::from(p.column)][usize::from(p.row)] = (name.clone(), b.mac_address(), b.device_id(), ci as u8, ro); } } } } }
     Inv { wire, pad }
 }
